@@ -8,7 +8,7 @@ from mc.props import loopcommon as lc
 
 LEVEL = "model_checking"
 LD = np.longdouble
-METHODS = ["RK4Solver", "RK45CKSolver", "DOPRI45", "RK1412Solver", "ABAs5o6HSolver", "SymplecticEulerSolver", "BackwardEuler", "GaussLegendre4", "RICH:RK4Solver:3", "RICH:EulerSolver:4"]
+METHODS = ["RK4Solver", "RK45CKSolver", "DOPRI45", "RK1412Solver", "ABAs5o6HSolver", "SymplecticEulerSolver", "BackwardEuler", "GaussLegendre4", "RadauIIA5", "RICH:RK4Solver:3", "RICH:EulerSolver:4"]
 SPANS = [(0.0, 2.0), (0.0, -2.0), (1.0, -1.0), (-3.0, -1.0), (3.0, 1.5)]
 
 
@@ -169,6 +169,10 @@ def configs(ctx):
                 dts = ("float64",) if (ctx.quick or m.startswith("RICH") or m in ("RK1412Solver",)) else ("float64", "longdouble", "float32")
                 for dn in dts:
                     tol = 1e-6 if dn != "float32" else 1e-4
+                    if m == "RadauIIA5":
+                        tol = 1e-4          # stiffly accurate implicit pair: keeps the runs short; its stage slopes are solved only to this tolerance
+                        if dn != "float64":
+                            continue
                     out.append(dict(method=m, span=list(sp), dt0=dt0, dtype=dn, tol=tol))
                     out.append(dict(method=m, span=list(sp), dt0=dt0, dtype=dn, tol=tol, observe=True))
     return out
@@ -177,7 +181,7 @@ def configs(ctx):
 def run(ctx):
     depth = 3
     ctx.rule = ("E1 breadth-first search to depth %d over histories of {integrate(), integrate(mid), integrate(terminal event), faulting integrate (callback raises at its 2nd step)} "
-                "with dense output on, from 10 methods (incl. two Richardson wrappers) x 5 signed spans (forward, backward, through zero, negative times) x dtypes x {no observer, an observer issuing array / scalar / grad queries between the calls}; "
+                "with dense output on, from 11 methods (incl. a stiffly accurate implicit pair and two Richardson wrappers) x 5 signed spans (forward, backward, through zero, negative times) x dtypes x {no observer, an observer issuing array / scalar / grad queries between the calls}; "
                 "after every transition all dense-output invariants are evaluated on the real object (anchoring of one piece per step, end values, end slopes = f, "
                 "lookup by the containing piece for 3 interior points per step incl. grad and array queries, accuracy against the closed form); "
                 "distinct = distinct (method, direction, op-name history, #rows) classes" % depth)
